@@ -1,10 +1,10 @@
 SPECIFICATION Spec
 CONSTANTS
-  Names <- NamesThorough
+  Names <- NamesQuick
   Vers <- VersThorough
   Msgs <- MsgsOne
   MacroMsgs <- MacroMsgsQuick
-  Levels <- LevelsQuick
+  Levels <- LevelsZero
   Clocks <- ClocksQuick
   Sites <- SitesOne
   Macros <- MacrosNone
